@@ -2,6 +2,13 @@
 # tools/mk_round.sh <brief.md> <suffix> <ID...>: a scratch worktree /tmp/wt/<ID><suffix> of /repo's HEAD per ID, with a
 # prebuilt target directory and out/BRIEF.md written from the brief template (nothing from /verif goes in)
 brief="$1"; suf="$2"; shift 2
+# the prebuilt target directory the agents' worktrees start from (scratch: removed at the end of a session, rebuilt here)
+if [ ! -d /tmp/wt/base/target ]; then
+  mkdir -p /tmp/wt
+  [ -d /tmp/wt/base ] || git -C /repo worktree add --detach /tmp/wt/base HEAD -q || exit 2
+  cp /repo/Cargo.lock /tmp/wt/base/
+  ( cd /tmp/wt/base && CARGO_NET_OFFLINE=true cargo test --offline --no-run -j 8 >/dev/null 2>&1; CARGO_NET_OFFLINE=true cargo build --offline --features charsets,json,form,multipart-form,basic-auth >/dev/null 2>&1 )
+fi
 for id in "$@"; do
   d=/tmp/wt/$id$suf
   [ -d $d ] && continue
